@@ -105,6 +105,20 @@ PROPS["C18"] = {
     "technique": "deterministic simulation: simulated state repository with delayed/duplicated watch events; invariant checks after every event burst",
 }
 
+PROPS["C09"] = {
+    "harness": "ids", "level": "exploration", "per_proc": 100, "proc_timeout": 900,
+    "quick": {"runs": 4000, "budget_s": 300},
+    "thorough": {"runs": 200000, "budget_s": 1700, "shrink_runs": 300, "shrink_timeout": 600},
+    "rule": "Each run: one real MetricMetaDatabase shared by a metadata-worker task (metric ids, field ids) and 1-2 shard index-worker tasks, each with its own real MetricIndexDatabase (metric id, series id and through it tag key / tag value ids) - the callers tsdb/memdb has - over a small name universe (2 namespaces x 4 metrics x 8 tag sets x 3 fields) under a seeded schedule; 1-3 phases of 2-11 calls with PrepareFlush-in-worker + Flush-in-own-task for the meta and index databases (meta flushes serialised as the flush checker does), ending with nothing, flush, flush+close+reopen, or process death (at a file-system seam operation of the kv stores, at entry of the sequence sync / flush functions, or idle). Oracle: ledger name<->ID per kind and scope; after restart get-only lookups (GetMetricID, GetSchema, CollectTagValues, postings) decide what survived, everything that survived must have its old ID, after a clean reopen everything must have survived, and new names must not receive IDs that surviving dictionaries or postings use for another name.",
+    "fault_kinds": ["crash@write", "crash@yield", "crash-idle", "close-reopen"],
+    "real": ["index (kv store, metric meta database, metric index database, schema store, sequence)", "index/v1 flushers/readers/mergers, index/model trie buckets", "kv stores underneath", "hashicorp/golang-lru expirable cache (rewritten copy)"],
+    "stub": ["tsdb/memdb workers: replaced by harness tasks calling the same index APIs in the same roles (the real workers run in the node harness)"],
+    "assumptions": COMMON_ASSUME + ["series ids are generated by one caller per index database, as one shard index worker does", "sync.Pool reuse of tries is not controlled by the simulator"],
+    "design_ref": "5/C09",
+    "level_text": "Seeded exploration of interleavings of the get-or-create calls of the real index databases with flushes, reopen and process death inside flushes; bijection ledger across restarts.",
+    "technique": "deterministic simulation: seeded baton scheduler + tape-placed process death in metadata/index flushes; name<->ID bijection ledger across incarnations",
+}
+
 NOT_APPLICABLE = {
     "C13": "pure arithmetic on (timestamp, interval): no schedule, clock, fault or crash point in the quantifier for a simulator to own; its code runs inside the C04/C07/C11 harnesses",
     "C14": "encode/decode are pure functions; pooled-object reuse is owned by the simulator only as a nondeterminism source of other harnesses, not as a fault of this property",
